@@ -207,7 +207,7 @@ class Exec:
             return False
         if getattr(self, 'deadline', None) is not None:
             import time as _t
-            if _t.time() > self.deadline:
+            if _t.process_time() > self.deadline:
                 raise Unsupported('exploration budget exceeded (path explosion)')
         if self.cursor < len(self.decisions):
             d = self.decisions[self.cursor]
@@ -986,11 +986,20 @@ class Exec:
             return x in container
         raise Unsupported(f'`in` on {type(container).__name__}')
 
+    def _display(self, elts, fr):
+        out = []
+        for x in elts:
+            if isinstance(x, ast.Starred):
+                out.extend(self.iterate(self.eval(x.value, fr)))        # [*a, b]
+            else:
+                out.append(self.eval(x, fr))
+        return out
+
     def ex_Tuple(self, e, fr):
-        return tuple(self.eval(x, fr) for x in e.elts)
+        return tuple(self._display(e.elts, fr))
 
     def ex_List(self, e, fr):
-        return [self.eval(x, fr) for x in e.elts]
+        return self._display(e.elts, fr)
 
     def ex_Set(self, e, fr):
         return set(self.eval(x, fr) for x in e.elts)
@@ -1202,6 +1211,9 @@ class Exec:
         from .symmap import SortedKeys, Combined
         if isinstance(first, SortedKeys):
             return self.combined_comprehension(first.map, elt, gens, sub)
+        from .symmap import ChunkSeq
+        if isinstance(first, ChunkSeq):
+            return self.chunk_comprehension(first, elt, gens, sub)
 
         def rec(i):
             if i == len(gens):
@@ -1215,26 +1227,73 @@ class Exec:
         rec(0)
         return out
 
+    @staticmethod
+    def _is_full_reverse(node):
+        return (isinstance(node, ast.Subscript) and isinstance(node.slice, ast.Slice) and node.slice.lower is None and node.slice.upper is None
+                and node.slice.step is not None and isinstance(node.slice.step, ast.UnaryOp) and isinstance(node.slice.step.op, ast.USub)
+                and isinstance(node.slice.step.operand, ast.Constant) and node.slice.step.operand.value == 1)
+
     def combined_comprehension(self, m, elt, gens, sub):
-        """[b for idx in sorted(M) for b in M[idx]]  /  ... in M[idx][::-1]]  over a symbolic map M."""
-        from .symmap import Combined
-        ok = (len(gens) == 2 and not gens[0].ifs and not gens[1].ifs and isinstance(gens[0].target, ast.Name)
-              and isinstance(gens[1].target, ast.Name) and isinstance(elt, ast.Name) and elt.id == gens[1].target.id)
-        if not ok:
-            raise Unsupported('comprehension over sorted(symbolic map) of an unmodelled shape')
-        it = gens[1].iter
-        each_rev = False
-        if isinstance(it, ast.Subscript) and isinstance(it.slice, ast.Slice) and it.slice.lower is None and it.slice.upper is None \
-                and it.slice.step is not None and isinstance(it.slice.step, ast.UnaryOp) and isinstance(it.slice.step.op, ast.USub) \
-                and isinstance(it.slice.step.operand, ast.Constant) and it.slice.step.operand.value == 1:
-            each_rev = True
-            it = it.value
-        if not (isinstance(it, ast.Subscript) and isinstance(it.slice, ast.Name) and it.slice.id == gens[0].target.id):
-            raise Unsupported('comprehension over sorted(symbolic map) of an unmodelled shape')
-        base = self.eval(it.value, sub)
-        if base is not m:
-            raise Unsupported('comprehension indexes a different map than it iterates')
-        return Combined(m.snapshot(), 'asc', each_rev, None, as_list=True)
+        """Comprehensions over sorted(M) for a symbolic map M, in the shapes
+             [b for idx in sorted(M) for b in M[idx]]          (optionally M[idx][::-1])   -> Combined
+             [M[idx] for idx in sorted(M)]                     (optionally M[idx][::-1])   -> ChunkSeq
+           (a ChunkSeq is flattened by chunk_comprehension below)."""
+        from .symmap import Combined, ChunkSeq
+        unmodelled = Unsupported('comprehension over sorted(symbolic map) of an unmodelled shape')
+        if any(g.ifs for g in gens) or not isinstance(gens[0].target, ast.Name):
+            raise unmodelled
+        key = gens[0].target.id
+
+        def chunk_expr(node):
+            """node is M[key] or M[key][::-1] -> each_rev, else None"""
+            rev = False
+            if self._is_full_reverse(node):
+                rev = True
+                node = node.value
+            if isinstance(node, ast.Subscript) and isinstance(node.slice, ast.Name) and node.slice.id == key:
+                if self.eval(node.value, sub) is not m:
+                    raise Unsupported('comprehension indexes a different map than it iterates')
+                return rev
+            return None
+        if len(gens) == 1:
+            rev = chunk_expr(elt)
+            if rev is None:
+                raise unmodelled
+            return ChunkSeq(m.snapshot(), 'asc', rev)
+        if len(gens) == 2 and isinstance(gens[1].target, ast.Name) and isinstance(elt, ast.Name) and elt.id == gens[1].target.id:
+            rev = chunk_expr(gens[1].iter)
+            if rev is None:
+                raise unmodelled
+            return Combined(m.snapshot(), 'asc', rev, None, as_list=True)
+        raise unmodelled
+
+    def chunk_comprehension(self, cs, elt, gens, sub):
+        """[b for chunk in CS for b in chunk]  (optionally chunk[::-1]);  [chunk[::-1] for chunk in CS]."""
+        from .symmap import ChunkSeq
+        unmodelled = Unsupported('comprehension over a chunk sequence of an unmodelled shape')
+        if any(g.ifs for g in gens) or not isinstance(gens[0].target, ast.Name):
+            raise unmodelled
+        var = gens[0].target.id
+
+        def chunk_expr(node):
+            rev = False
+            if self._is_full_reverse(node):
+                rev = True
+                node = node.value
+            if isinstance(node, ast.Name) and node.id == var:
+                return rev
+            return None
+        if len(gens) == 1:
+            rev = chunk_expr(elt)
+            if rev is None:
+                raise unmodelled
+            return ChunkSeq(cs.snapshot, cs.order, cs.each_rev != rev)
+        if len(gens) == 2 and isinstance(gens[1].target, ast.Name) and isinstance(elt, ast.Name) and elt.id == gens[1].target.id:
+            rev = chunk_expr(gens[1].iter)
+            if rev is None:
+                raise unmodelled
+            return cs.flatten(rev, as_list=True)
+        raise unmodelled
 
     def ex_Lambda(self, e, fr):
         return Opaque('lambda')
@@ -1429,9 +1488,10 @@ def explore(repo, run, assumptions=(), contracts=None, inline=(), hooks=None, ma
     import time as _t
     work = [[]]
     results = []
-    t_end = _t.time() + (budget_s if budget_s is not None else float(os.environ.get('PYVC_EXPLORE_BUDGET_S', '90')))
+    # CPU time of this worker process, not wall time: the verdict must not depend on how busy the machine is
+    t_end = _t.process_time() + (budget_s if budget_s is not None else float(os.environ.get('PYVC_EXPLORE_BUDGET_S', '90')))
     while work:
-        if _t.time() > t_end:
+        if _t.process_time() > t_end:
             raise Unsupported('exploration budget exceeded (path explosion)')
         dec = work.pop()
         ex = Exec(repo, dec, assumptions, contracts, inline, hooks, branch_timeout_ms)
